@@ -7,7 +7,7 @@ Caps = {3, 5}
 CodeSets = {{14}, {13, 14}}
 BufLimits = {10, 20, 1000}
 ThrMaxs = {0, 4}
-Boffs = {1, 2}
+Boffs = {1, 2, 3}
 PBSet = {"none", "p0", "p7", "neg", "bad", "multi"}
 Trigs = {"open", "late"}
 FailCodes = {13, 14}
